@@ -130,7 +130,17 @@ func exec(op Op) string {
 		a, e1 := sms.DecodeCMPPCContent(ctx, string(enc), 8)
 		b, e2 := sms.DecodeSMPPCContent(ctx, string(enc), 8)
 		c, e3 := sms.DecodeSMPPCContent(ctx, text, 0)
-		return digest([]byte(a), []byte(b), []byte(c), []byte(fmt.Sprint(e1, e2, e3)))
+		// the same text as other stacks send it: with a byte-order mark, big- and little-endian
+		be := append([]byte{0xfe, 0xff}, enc...)
+		le := []byte{0xff, 0xfe}
+		for i := 0; i+1 < len(enc); i += 2 {
+			le = append(le, enc[i+1], enc[i])
+		}
+		d1, e4 := dc.UCS2(be).Decode()
+		d2, e5 := dc.UCS2(le).Decode()
+		d3, e6 := sms.DecodeCMPPCContent(ctx, string(le), 8)
+		d4, e7 := sms.DecodeSMPPCContent(ctx, string(be), 8)
+		return digest([]byte(a), []byte(b), []byte(c), d1, d2, []byte(d3), []byte(d4), []byte(fmt.Sprint(e1, e2, e3, e4, e5, e6, e7)))
 	case "gsm7":
 		text := string(vk.UnHex(op.Text))
 		sep, err := g.Encode(text)
@@ -254,6 +264,9 @@ var fixedSlotTypes = []string{"cmpp20.PduSubmit", "cmpp20.PduDeliver", "cmpp20.P
 // a content for which UCS-2 needs more than 255 parts while the GSM-7 / ASCII codings do not
 var overflowText = strings.Repeat("a", 17200)
 
+// hugeText: more than 32768 UTF-16 units (the pooled conversion buffer grows beyond 64 KiB)
+var hugeText = strings.Repeat("0123456789abcdef中", 2100)
+
 var opGen = rapid.Custom(func(t *rapid.T) Op {
 	k := rapid.SampledFrom([]string{"encode", "encode", "encodebad", "decode", "decode", "string", "string", "split", "batch", "content", "gsm7", "msgid", "names", "names", "ucs2", "period"}).Draw(t, "k")
 	op := Op{K: k, U: rapid.Uint64().Draw(t, "u"), Yield: rapid.IntRange(0, 3).Draw(t, "yield") == 0}
@@ -274,6 +287,9 @@ var opGen = rapid.Custom(func(t *rapid.T) Op {
 		op.Vals = &j
 	default:
 		op.Text = vk.Hex([]byte(rapid.SampledFrom(texts).Draw(t, "text")))
+		if k == "ucs2" && rapid.IntRange(0, 19).Draw(t, "huge") == 0 {
+			op.Text = vk.Hex([]byte(hugeText))
+		}
 		if k == "batch" && rapid.IntRange(0, 4).Draw(t, "overflow") == 0 {
 			op.Text = vk.Hex([]byte(overflowText)) // one candidate fails with 'too many parts' while its siblings run
 		}
@@ -299,6 +315,20 @@ func TestConcurrent(t *testing.T) {
 				n = rapid.IntRange(5, 100).Draw(t, "ncallsbig")
 			}
 			c.G = append(c.G, rapid.SliceOfN(opGen, n, n).Draw(t, fmt.Sprintf("g%d", i)))
+		}
+		// hot values: in half of the cases the numeric arguments (message ids, references, name-table ids) come
+		// from a pool of three values shared by all goroutines, so that calls repeat each other's and their own
+		// most recent arguments - what a memo or a last-result cache needs to be hit
+		if rapid.Bool().Draw(t, "hotvalues") {
+			hot := rapid.SliceOfN(rapid.Uint64(), 3, 3).Draw(t, "hot")
+			for i := range c.G {
+				for j := range c.G[i] {
+					if sel := rapid.IntRange(0, 3).Draw(t, "hotsel"); sel < 3 {
+						c.G[i][j].U = hot[sel]
+					}
+				}
+			}
+			rec.Class("hot_value_pool")
 		}
 		v, overlapped := runCase(c)
 		rec.Eval()
